@@ -64,11 +64,22 @@ DoGOC(p) ==
   /\ act' = [op |-> "goc", p |-> p,
              kind |-> IF p \in EntryDP THEN "entry" ELSE SK[SchemaOf(p)]]
 
+\* Entries lacking a key leaf (reachable by deleting a key leaf).  The implementation finds such
+\* an entry by its map key (retrieveNodeList falls back to the key of the Go map when the key
+\* leaf is unpopulated), so DeleteNode is specified there: a sequence "delete the key leaf, then
+\* delete the entry / another leaf of it" is a sequence of deletions as the property quantifies.
+\* What SetNode / GetOrCreateNode do with such an entry is unspecified (schema-invalid tree).
+UnsetEntries ==
+  {lk \in UNION {{<<l, k>> : k \in Entries(tree, l)} : l \in ListDP} :
+     \E i \in 1..Len(KeyLeafNames[SchemaOf(lk[1])]) :
+        (lk[1] \o <<lk[2], KeyLeafNames[SchemaOf(lk[1])][i]>>) \notin DOMAIN tree.lv}
+AllKeyLeavesSet == UnsetEntries = {}
+
 Next ==
-  \/ \E p \in LeafDP : \E v \in SetVals(p) : DoSet(p, v)
-  \/ \E p \in LeafListDP : \E vs \in LLVals : DoSetLL(p, vs)
+  \/ AllKeyLeavesSet /\ \E p \in LeafDP : \E v \in SetVals(p) : DoSet(p, v)
+  \/ AllKeyLeavesSet /\ \E p \in LeafListDP : \E vs \in LLVals : DoSetLL(p, vs)
   \/ \E p \in DelTargets : DoDelete(p)
-  \/ \E p \in GOCTargets : DoGOC(p)
+  \/ AllKeyLeavesSet /\ \E p \in GOCTargets : DoGOC(p)
 
 Spec == Init /\ [][Next]_vars
 
@@ -77,6 +88,9 @@ View == tree
 \* State constraint: trees in which some list entry lacks a key leaf (reachable by deleting
 \* a key leaf) are schema-invalid transitory states; transitions into them are explored and
 \* checked, transitions out of them are not (what the API does there is unspecified).
+\* Expand: the exhaustive runs go on from trees with at most one such entry (by deletions only).
+Expand == Cardinality(UnsetEntries) <= 1
+
 KeyLeavesSet ==
   \A l \in ListDP : \A k \in Entries(tree, l) :
      \A i \in 1..Len(KeyLeafNames[SchemaOf(l)]) :
